@@ -161,7 +161,9 @@ def output (s : Sys) : Sys × Out :=
       match cpRead s.cp (mtu - 3) with
       | (cp', some v) => ({ s1 with cp := cp' }, .ind v)
       | (cp', none) => ({ s1 with cp := cp' }, .uninit)
-    else (s1, .nothing)       -- dequeued, but not configured any more: dropped
+    -- dequeued, but not configured any more: dropped; since fix 00aac07 (attnotify-03) an
+    -- indication that produced no PDU does not stay outstanding
+    else ({ s1 with outstanding := false }, .nothing)
   else (s, .nothing)
 
 def step (s : Sys) : Op → Sys × Out
